@@ -150,6 +150,36 @@ pub fn gen_heap(args: &Args) {
     let mut src = std::fs::File::create(format!("{out}.src")).expect("create src");
     let mut w = Worker::spawn(Duration::from_secs(15));
     let mut id = first_id;
+    if mode == "runs" && args.num("directed", 0) > 0 {
+        // directed programs: many live heap values without a single function return (a collector that decides for
+        // itself when to run must find them all), fresh values as elements / arguments / operands while others are
+        // pending, conversions that may hand back their argument, then function returns, then every value is read
+        let texts = [
+            "stel a = []; stel i = 0; zolang i < 130 { a = [string(i), 0.5 * float(i), [string(i), 1.5]]; i += 1 }; print(a); a",
+            "stel a = [0, 0, 0]; stel i = 0; zolang i < 110 { a[i % 3] = [string(i), float(i) / 2.0]; i += 1 }; print(a); a",
+            "stel s = \"\"; stel i = 0; stel b = []; zolang i < 120 { s = string(i); b = [s, b, string(i + 1)]; i += 1 }; stel n = 0; stel c = b; zolang lengte(c) == 3 { n += lengte(c[0]); c = c[1] }; n",
+            "stel i = 0; stel k = [1.5]; zolang i < 160 { k = [k[0] + 0.25, string(k[0]), [float(i)]]; i += 1 }; print(k); k",
+            "stel i = 0; stel t = 0; zolang i < 110 { t += lengte([string(i), [float(i), string(i)], 2.5 * float(i)]); i += 1 }; t",
+            "functie f() { 1 }; stel t = string(\"abc\"); f(); print(t); stel u = float(2.5); f(); print(u); [t, u]",
+            "functie f() { 1 }; stel s = string(5); stel t = string(s); f(); print(s); print(t); f(); [s, t, lengte(t)]",
+            "functie f() { 1 }; stel x = float(float(\"1.5\")); stel y = float(x); f(); f(); [x, y, x + y]",
+            "functie f() { 1 }; stel a = [string(\"a\"), float(0.5), string(string(7))]; f(); print(a); f(); a",
+            "functie id(v) { v }; stel t = id(string(\"tekst\")); stel u = id(float(3.5)); id(0); [t, u, string(t), float(u)]",
+            "functie f() { 1 }; stel i = 0; stel l = \"\"; zolang i < 5 { l = string(l); f(); i += 1 }; [l, lengte(l)]",
+        ];
+        let full = RunOpts { budget: Some(200_000), heap: true, release: true, ..Default::default() };
+        for text in texts {
+            let r = w.eval(text, &full);
+            let mut rec = json!({"id":id,"fam":"runs-directed","k":-1,"heap":r.get("heap").cloned().unwrap_or(json!([])),
+                "live_after":r.get("live_after").cloned().unwrap_or(json!([])),"obs":r["obs"]});
+            if r.get("heap").is_none() {
+                rec["heap"] = json!([]);
+            }
+            writeln!(f, "{}", rec).unwrap();
+            writeln!(src, "{}", json!({"id":id,"text":text})).unwrap();
+            id += 1;
+        }
+    }
     for i in 0..n {
         let mut g = Gen::new(seed.wrapping_mul(3_000_017).wrapping_add(i), cfg_for("alloc"));
         if mode == "aborts" {
